@@ -20,6 +20,8 @@ def run_property(pid: str, tier: str, repo=None, replay=None, quiet=False) -> in
     ctx = Ctx(repo)
     chk = Check(pid, tier, ctx)
     mod = importlib.import_module(f'plumpy_sa.props.{pid.lower()}')
+    from .props.common import need_anchor_attrs
+    need_anchor_attrs(ctx.prog, pid)
     mod.run(chk)
     if replay is not None:
         with open(replay) as fh:
